@@ -264,6 +264,13 @@ func (c *Conn) SendRaw(b []byte) error {
 	return err
 }
 
+// WriteRaw writes raw bytes without recording them (the caller records the packets with NoteSent).
+func (c *Conn) WriteRaw(b []byte) error {
+	c.c.SetWriteDeadline(time.Now().Add(3 * time.Second))
+	_, err := c.c.Write(b)
+	return err
+}
+
 // Close closes the socket abruptly.
 func (c *Conn) Close() { c.c.Close() }
 
